@@ -5,7 +5,6 @@ import (
 	"os"
 	"path/filepath"
 	"runtime"
-	"runtime/pprof"
 	"sort"
 	"strings"
 	"sync"
@@ -185,11 +184,6 @@ func startHeight(rng *vf.RNG) uint32 {
 
 // Run is the whole monitor for one property.
 func Run(r *vf.Run, cfg Cfg) {
-	if pf := os.Getenv("GOVDRV_PROF"); pf != "" {
-		f, _ := os.Create(pf)
-		pprof.StartCPUProfile(f)
-		defer pprof.StopCPUProfile()
-	}
 	scratch := vf.Scratch(strings.ToLower(cfg.Prop))
 	defer os.RemoveAll(scratch)
 	seed := vf.Seed()
@@ -197,9 +191,13 @@ func Run(r *vf.Run, cfg Cfg) {
 
 	// ---- worlds: real solo ledgers, created one after the other (config.DefConfig is global)
 	var worlds []*World
-	for i := 0; i < cfg.Worlds; i++ {
+	for i := 0; i <= cfg.Worlds; i++ {
 		K := 7 + i%6
-		w := NewWorld(fmt.Sprintf("gov-%d-w%d", seed, i), K, i+int(seed%4))
+		variant := i + int(seed%4)
+		if i == cfg.Worlds {
+			variant = -1 - int(seed%3) // the zero-stake world
+		}
+		w := NewWorld(fmt.Sprintf("gov-%d-w%d", seed, i), K, variant)
 		if err := w.Boot(filepath.Join(scratch, fmt.Sprintf("w%d", i))); err != nil {
 			r.Inconclusive(fmt.Sprintf("world %d (K=%d) does not boot: %v", i, K, err))
 			continue
@@ -230,6 +228,9 @@ func Run(r *vf.Run, cfg Cfg) {
 	// ---- phase 1: real blocks on each world's ledger, the virtual engine in lockstep
 	var wg sync.WaitGroup
 	for i, w := range worlds {
+		if w.ZeroStakePeers {
+			continue
+		}
 		wg.Add(1)
 		go func(i int, w *World) {
 			defer wg.Done()
@@ -243,6 +244,9 @@ func Run(r *vf.Run, cfg Cfg) {
 	vf.Parallel(cfg.Hist, workers, func(i int) {
 		sub := rng.Sub(uint64(i))
 		w := worlds[i%len(worlds)]
+		if w.ZeroStakePeers && i%(4*len(worlds)) != i%len(worlds) {
+			w = worlds[(i/len(worlds))%(len(worlds)-1)] // only every 4th turn of the zero-stake world is used
+		}
 		runHistory(r, cfg, w, fmt.Sprintf("hist-%d", i), sub, NewVEngine(w), nil, false, startHeight(sub))
 	})
 	summarise(r, cfg)
